@@ -83,11 +83,21 @@ def is_exception(it: Interp, exc: ExcVal) -> bool:
     return it.is_subclass(exc.cls, BUILTIN_CLASSES['Exception'])
 
 
+# positional parameter names of the real methods that stand-ins replace (so that a call by keyword reaches the stand-in by position)
+STUB_PARAMS = {
+    'is_blocked': ('username', 'flag'), 'emit': ('event',), 'get_user_object': ('username',), 'track_user': ('username', 'flag'),
+    'untrack_user': ('username', 'flag'), 'disconnect': ('reason',), 'queue_message': ('message',), 'send_message': ('message',),
+    'send': ('message',), 'get_shared_item': ('remote_path', 'username'), 'find_shared_item': ('remote_path', 'username'),
+    'create_directory': ('absolute_path',), 'calculate_download_path': ('remote_path',), 'calc': ('remote_path',), 'mkdir': ('absolute_path',),
+}
+
+
 class Recorder:
     """Callable stand-in for a collaborator method: records calls, returns a fixed value / runs a function."""
 
-    def __init__(self, name, ret=None, fn=None, is_async=False, aio=None, yields=True):
+    def __init__(self, name, ret=None, fn=None, is_async=False, aio=None, yields=True, params=None):
         self.name = name
+        self.params = params
         self.calls: list = []
         self.ret = ret
         self.fn = fn
@@ -96,6 +106,15 @@ class Recorder:
         self.yields = yields
 
     def pyvc_call(self, it, args, kwargs):
+        # stand-ins are read by position; the analysed code may pass the same arguments by keyword (parameter names of the real methods)
+        params = self.params or STUB_PARAMS.get(self.name)
+        if params and kwargs:
+            args = list(args)
+            for nm in params[len(args):]:
+                if nm in kwargs:
+                    args.append(kwargs[nm])
+                else:
+                    break
         self.calls.append((args, kwargs))
         if self.is_async:
             def body(it2):
